@@ -2,6 +2,7 @@ package interp
 
 import (
 	"bytes"
+	"go/token"
 	_ "fmt"
 
 	"go/types"
@@ -65,6 +66,16 @@ func init() {
 			return randFill(args[0].([]value))
 		},
 		"mime.TypeByExtension": func(fr *frame, args []value) value {
+			if _, ok := args[0].(symstr); ok {
+				// the model knows two extensions; a symbolic one is compared against them
+				if truth(strBinop(token.EQL, args[0], ".txt")) {
+					return "text/plain; charset=utf-8"
+				}
+				if truth(strBinop(token.EQL, args[0], ".png")) {
+					return "image/png"
+				}
+				return ""
+			}
 			switch args[0].(string) {
 			case ".txt":
 				return "text/plain; charset=utf-8"
